@@ -8,7 +8,7 @@ SIGS_OUT = ['', 'i', 's', 'is', 'ai', '(ii)', 'as', '(s)', 'a(is)']       # the 
 OUT_VALUE = {'': None, 'i': 5, 's': 'res', 'is': (4, 'four'), 'ai': [1, 2, 3], '(ii)': (1, 2), 'as': ['only'], '(s)': ('one',), 'a(is)': [(1, 'x')]}
 OUT_CANON = {'': None, 'i': [5], 's': ['res'], 'is': [4, 'four'], 'ai': [[1, 2, 3]], '(ii)': [[1, 2]], 'as': [['only']], '(s)': [['one']], 'a(is)': [[[1, 'x']]]}
 OUTCOMES = ['value', 'deferred', 'deferred_fail', 'raise_named', 'raise_plain', 'raise_badname', 'raise_nul', 'raise_oddclass', 'unencodable',
-            'raise_notimpl', 'raise_typeerror', 'deferred_fail_notimpl', 'raise_empty', 'raise_unnamed_base', 'deferred_fail_unnamed_base', 'raise_nulname', 'raise_surrogatename']
+            'raise_notimpl', 'raise_typeerror', 'deferred_fail_notimpl', 'raise_empty', 'raise_unnamed_base', 'deferred_fail_unnamed_base', 'raise_nulname', 'raise_surrogatename', 'raise_tuplename']
 
 
 class Conn:
@@ -33,6 +33,10 @@ class NulNameError(Exception):
 
 class SurrogateNameError(Exception):
     dbusErrorName = 'bad\ud800.name'
+
+
+class TupleNameError(Exception):
+    dbusErrorName = ('org.verif', 'Pair')            # not a string at all: not a valid DBus error name
 
 
 class AppError(Exception):
@@ -97,6 +101,8 @@ def build_scenario(rnd):
                 raise NulNameError('the name has a NUL, impl %d' % impl_id)
             if outcome == 'raise_surrogatename':
                 raise SurrogateNameError('the name has a lone surrogate, impl %d' % impl_id)
+            if outcome == 'raise_tuplename':
+                raise TupleNameError('the name is a pair, impl %d' % impl_id)
             if outcome == 'raise_unnamed_base':
                 raise AppError('no name of its own, impl %d' % impl_id)
             if outcome == 'deferred_fail_unnamed_base':
@@ -287,14 +293,14 @@ def one_call(rnd, sc, serial):
                 'raise_typeerror': 'org.txdbus.PythonException.TypeError', 'deferred_fail_notimpl': 'org.txdbus.PythonException.NotImplementedError',
                 'raise_empty': 'org.txdbus.PythonException.RuntimeError', 'raise_unnamed_base': 'org.txdbus.PythonException.AppError',
                 'deferred_fail_unnamed_base': 'org.txdbus.PythonException.AppError', 'raise_nulname': 'org.txdbus.InvalidErrorName',
-                'raise_surrogatename': 'org.txdbus.InvalidErrorName'}.get(outcome)
+                'raise_surrogatename': 'org.txdbus.InvalidErrorName', 'raise_tuplename': 'org.txdbus.InvalidErrorName'}.get(outcome)
     if type(r).__name__ != 'ErrorMessage':
         return '%s (outcome %s): reply is %s, expected an error' % (what, outcome, type(r).__name__)
     if want_err and r.error_name != want_err:
         return '%s (outcome %s): error reply named %r, expected %r' % (what, outcome, r.error_name, want_err)
     if outcome == 'raise_empty' and r.body and r.body[0] != '':
         return '%s (outcome %s): the exception has no text, the error reply carries the message %r' % (what, outcome, r.body[0])
-    if outcome in ('raise_notimpl', 'raise_typeerror', 'deferred_fail_notimpl', 'raise_unnamed_base', 'deferred_fail_unnamed_base', 'raise_nulname', 'raise_surrogatename') and not (r.body and 'impl' in str(r.body[0])):
+    if outcome in ('raise_notimpl', 'raise_typeerror', 'deferred_fail_notimpl', 'raise_unnamed_base', 'deferred_fail_unnamed_base', 'raise_nulname', 'raise_surrogatename', 'raise_tuplename') and not (r.body and 'impl' in str(r.body[0])):
         return '%s (outcome %s): the error reply carries %r, not the text of the exception' % (what, outcome, r.body)
     return None
 
